@@ -92,6 +92,8 @@ def _gen_tree_ops(rng, n):
             e = ["remove", k]
         elif r < 0.85:
             e = ["pickle"]
+        elif r < 0.93:
+            e = ["exec", k, rng.choice(["ctl", "ctl", "none"])]
         else:
             e = None
         if e is not None:
@@ -154,10 +156,11 @@ def gen_cases(rng, tier):
     shapes = _tree_shapes()
     for i, sh in enumerate(shapes):
         # one edit of each kind, aimed (by the selector) at every composite in turn
-        for kind in ("setin", "rewire", "replace", "add", "remove"):
+        for kind in ("setin", "rewire", "replace", "add", "remove", "exec"):
             for sel in range(6 if tier == "quick" else 16):
                 e = {"setin": ["setin", sel, 4], "rewire": ["rewire", sel], "replace": ["replace", sel, 15],
-                     "add": ["add", sel, 25], "remove": ["remove", sel]}[kind]
+                     "add": ["add", sel, 25], "remove": ["remove", sel],
+                     "exec": ["exec", sel, "ctl"]}[kind]
                 yield {"kind": "tree", "shape": sh, "ops": [["run"], ["run"], e, ["run"], ["run"]], "bydepth": True}
     for _ in range(150 if tier == "quick" else 3000):
         yield {"kind": "tree", "shape": rng.choice(shapes), "ops": _gen_tree_ops(rng, rng.randint(2, 8))}
@@ -652,6 +655,9 @@ def _resolve(host, op):
                         if not is_root and _rank(comp, s.label) >= _rank(comp, c.label):
                             continue  # a macro keeps the execution order it was created with
                         cands.append(["rewire", path, c.label, ch.label, s.label])
+            elif kind == "exec":
+                if hasattr(c.outputs, "o"):
+                    cands.append(["exec", path, c.label, op[2]])
             elif kind == "replace":
                 if not _is_comp(c) and hasattr(c.outputs, "o"):
                     cands.append(["replace", path, c.label, op[2]])
@@ -675,12 +681,17 @@ def _resolve(host, op):
     return cands[sel % len(cands)]
 
 
-def _apply_tree(host, op, use_cache):
+def _apply_tree(host, op, use_cache, sched=None):
     import pickle
 
     from . import nodes
 
     try:
+        if op[0] == "exec":
+            from .execsim import CtlExecutor
+
+            _at(host, op[1]).children[op[2]].executor = None if op[3] == "none" else CtlExecutor(sched, op[3])
+            return "unit", host
         if op[0] == "setin":
             _at(host, op[1]).children[op[2]].inputs[op[3]].value = _val(op[4])
             return "unit", host
@@ -741,20 +752,31 @@ def _outs(host):
     return ";".join(f"{_lid(c.label)}={_term(c.outputs.o.value)}" for c in host if hasattr(c.outputs, "o"))
 
 
-def _run_tree(host):
+def _run_tree(host, sched):
+    """run under the deterministic scheduler of execsim: executor jobs complete, one at a time, whenever the
+    composite idles"""
+    from .execsim import Instrument, Stuck
+
     try:
-        r = host.run()
+        with Instrument(sched):
+            r = host.run()
         return "ret:" + ";".join(f"{k}={_term(v)}" for k, v in dict(r).items())
+    except Stuck:
+        return "exc:Stuck"
     except Exception as e:  # noqa: BLE001
         return f"exc:{type(e).__name__}"
+    finally:
+        sched.drain()
 
 
 def _run_tree_case(case):
     from . import nodes
+    from .execsim import Scheduler
 
     nodes.reset()
     a = _build_tree(case["shape"], True)
     b = _build_tree(case["shape"], False)
+    sa, sb = Scheduler([], max_points=5000), Scheduler([], max_points=5000)
     for h in (a, b):
         for _, comp in _comps(h):
             comp._c05_order = [c.label for c in comp]
@@ -776,9 +798,9 @@ def _run_tree_case(case):
             except Exception as e:  # noqa: BLE001
                 hit, key = False, f"exc:{type(e).__name__}"
             n0 = len(nodes.CALL_LOG)
-            ra = _run_tree(a)
+            ra = _run_tree(a, sa)
             calls = len(nodes.CALL_LOG) - n0
-            rb = _run_tree(b)
+            rb = _run_tree(b, sb)
             hits += int(hit)
             rows.append({"op": ["run"], "resolved": ["run"], "c": ra, "u": rb, "vc": _outs(a), "vu": _outs(b),
                          "hit": hit, "calls": calls, "key": key})
@@ -803,8 +825,8 @@ def _run_tree_case(case):
         before, changed = [], False
         if cop[0] == "pickle":
             _describe(a, [], True, before)
-        ra, a = _apply_tree(a, cop, True)
-        rb, b = _apply_tree(b, cop, False)
+        ra, a = _apply_tree(a, cop, True, sa)
+        rb, b = _apply_tree(b, cop, False, sb)
         if cop[0] == "pickle" and ra == "unit":
             after = []
             _describe(a, [], True, after)
@@ -824,7 +846,7 @@ def _run_tree_case(case):
             mlines.append(f"tsetin {_path_str(cop[1])} {_lid(cop[2])} {idx} v{cop[4]}")
         elif cop[0] == "rewire":
             mlines.append(f"tsetin {_path_str(cop[1])} {_lid(cop[2])} {idx} c{_lid(cop[4])}")
-        elif cop[0] != "pickle":
+        elif cop[0] not in ("pickle", "exec"):
             mlines.append(_model_line(cop))
     return {"obs": obs, "rows": rows, "mlines": mlines, "hits": hits, "special": 0,
             "stats": {"tree_cases": 1, "tree_hits": hits, "tree_runs": sum(1 for r in rows if r["resolved"] == ["run"]),
